@@ -8,7 +8,7 @@ from .common import TOL
 
 PROPERTY = "C08"
 LEVEL = "exploration"
-RUNS = {"quick": 700, "thorough": 30000}
+RUNS = {"quick": 2000, "thorough": 30000}
 RULE = ("seeded scenarios: a real server with a counter resource derived from resource.ObservableResource, 1-4 scripted "
         "observers registering with CON or NON requests; state changes in bursts at arbitrary instants (also while a "
         "notification is in flight); per notification the observer ACKs, RSTs, stays silent, re-registers on the same "
